@@ -544,13 +544,13 @@ impl<V: Val, S: StratExt<V>> Worker<V, S> {
             let mut kind = if mapped { CacheKind::Mapped(cache.map(identity::<V> as fn(&V) -> &V)) } else { CacheKind::Plain(cache) };
             // what it holds right after creation (no revalidation can be observed separately, so
             // this first load is recorded over the whole window)
-            let (id, addr) = {
+            let (id, addr) = self.call(true, || {
                 let v: &V = match &mut kind {
                     CacheKind::Plain(ca) => ca.load(),
                     CacheKind::Mapped(m) => m.load(),
                 };
                 (v.vid(), v.addr())
-            };
+            });
             let resp2 = self.stamp();
             V::note_owner_addr(addr, 1);
             let _ = resp;
